@@ -141,6 +141,53 @@ type UnexpA struct {
 	Pub     string `class:"public"`
 }
 
+// Three DISTINCT struct types that share package path and name ("main.payload": function-local declarations), with
+// different class tags on same-named fields and partly different fields: whatever a filter remembers about a type must be
+// remembered by the type's identity, not by its name
+func localTypeA() reflect.Type {
+	type payload struct {
+		Name  string   `class:"public"`
+		Token string   `class:"secret"`
+		Note  []string `class:"sensitive"`
+	}
+	return reflect.TypeOf(payload{})
+}
+func localTypeB() reflect.Type {
+	type payload struct {
+		Name  string   `class:"secret"`
+		Token string   `class:"public"`
+		Note  []string `class:"public"`
+	}
+	return reflect.TypeOf(payload{})
+}
+func localTypeC() reflect.Type {
+	type payload struct {
+		Name  string `class:"sensitive,hmac-sha256"`
+		Token string
+		Extra string `class:"public"`
+	}
+	return reflect.TypeOf(payload{})
+}
+
+// a second family, "main.record", met by the filter in the opposite order (the one with the secret key first)
+func localTypeD() reflect.Type {
+	type record struct {
+		Key    string   `class:"public"`
+		Note   []string `class:"public"`
+		Secret string   `class:"secret"`
+	}
+	return reflect.TypeOf(record{})
+}
+func localTypeE() reflect.Type {
+	type record struct {
+		Key    string `class:"secret"`
+		Note   []string
+		Secret string `class:"public"`
+		Extra  []byte `class:"sensitive"`
+	}
+	return reflect.TypeOf(record{})
+}
+
 // Ign: the type listed in Filter.IgnoreTypes (as *Ign) by the "ignore" cases
 type Ign struct {
 	Pub string `class:"public"`
@@ -177,11 +224,16 @@ var handTypes = map[string]reflect.Type{
 	"UnexpA":   reflect.TypeOf(UnexpA{}),
 	"EWI":      reflect.TypeOf(EWI{}),
 	"PTStruct": reflect.TypeOf(PTStruct{}),
+	"LocalA":   localTypeA(),
+	"LocalB":   localTypeB(),
+	"LocalC":   localTypeC(),
+	"LocalD":   localTypeD(),
+	"LocalE":   localTypeE(),
 	"Ign":      reflect.TypeOf(Ign{}),
 }
 
 // names <-> N
-var fixedNames = []string{"", "ID", "Pub", "Sens", "Unt", "M", "MS", "Sec", "T", "L", "hidden", "hiddenS", "N", "EvID", "Salt", "Info", "P", "Value"}
+var fixedNames = []string{"", "ID", "Pub", "Sens", "Unt", "M", "MS", "Sec", "T", "L", "hidden", "hiddenS", "N", "EvID", "Salt", "Info", "P", "Value", "Name", "Token", "Note", "Extra", "Key", "Secret"}
 
 func nameNok(s string) (int, bool) {
 	if len(s) > 1 && (s[0] == 'F' || s[0] == 'k') {
@@ -265,6 +317,10 @@ func typeOf(v *V) reflect.Type {
 			return reflect.SliceOf(typeOf(v.Elems[0]))
 		}
 		return reflect.SliceOf(typeOf(v.Elem))
+	case "array":
+		return reflect.ArrayOf(len(v.Elems), typeOf(v.Elems[0]))
+	case "islice":
+		return reflect.SliceOf(tIface)
 	case "map":
 		if v.Iface || len(v.Vals) == 0 {
 			return reflect.MapOf(tString, tIface)
@@ -368,10 +424,16 @@ func valueOf(v *V) reflect.Value {
 		r := reflect.New(tIface).Elem()
 		r.Set(valueOf(v.Elem))
 		return r
-	case "slice":
+	case "slice", "islice":
 		r := reflect.MakeSlice(t, 0, len(v.Elems))
 		for _, e := range v.Elems {
 			r = reflect.Append(r, valueOf(e))
+		}
+		return r
+	case "array":
+		r := reflect.New(t).Elem()
+		for i, e := range v.Elems {
+			r.Index(i).Set(valueOf(e))
 		}
 		return r
 	case "map":
@@ -472,6 +534,12 @@ func (p *projector) litp(rv reflect.Value, viaPtr bool) string {
 			return "(VOther 1%Z)"
 		}
 		return "(VOther 0%Z)"
+	case reflect.Array:
+		items := make([]string, rv.Len())
+		for i := range items {
+			items[i] = p.litp(rv.Index(i), false)
+		}
+		return "(VSlice " + hc.List(items) + ")"
 	case reflect.Slice:
 		switch rv.Type() {
 		case tBytes:
